@@ -11,6 +11,7 @@ use serde::Serialize;
 use super::escaped_filter::apply_escaped_filter_bytes;
 use super::rule::Rule;
 use super::rule::RuleMaker;
+use crate::escaping::Escaper;
 use crate::newline::BytesNewline;
 
 /// Simple equality match for lines that end in a new-line character
@@ -28,6 +29,19 @@ impl Rule for EscapedRule {
 
     fn unmake(&self) -> (String, Vec<u8>) {
         (self.kind().to_string(), self.1.to_owned())
+    }
+
+    fn to_expression_string(&self, optional: bool, multiline: bool, _escaper: &Escaper) -> String {
+        // print the expression as it was written: re-escaping the resolved
+        // bytes loses the escaping of a backslash when nothing else in them
+        // is unprintable (`a\\b` would come back as `a\b`, i.e. a backspace)
+        let quantifier = match (optional, multiline) {
+            (true, true) => "*",
+            (true, false) => "?",
+            (false, true) => "+",
+            (false, false) => "",
+        };
+        format!("{} (escaped{})", self.0, quantifier)
     }
 }
 
